@@ -36,9 +36,10 @@ Toks == { Tok("HS256", <<>>, m, Sig("valid", "HS256", KOct)) : m \in Claims }
         \cup { Tok("HS256", <<>>, <<IntM("exp", FutW)>>, Sig("flipbit", "HS256", KOct)), Tok("none", <<>>, <<IntM("exp", FutW)>>, EmptySig),
                Tok("HS512", <<>>, <<IntM("exp", PastW)>>, Sig("valid", "HS512", KOct2)) }
 
-C19Scripts ==
-  { <<LoadOp(<<KOct, KOct2>>), CNewOp, CSetKeyOp("HS256", 0)>> \o cfg \o <<CSetCbOp(p), VerifyOpX(t, 0, 1)>> :
-      cfg \in Configs, p \in AllProgs, t \in Toks }
+\* a family per (configuration, token): big explicit sets are quadratic to normalise in TLC (Interp.tla)
+C19Fam ==
+  [ct \in Configs \X Toks |->
+     { <<LoadOp(<<KOct, KOct2>>), CNewOp, CSetKeyOp("HS256", 0)>> \o ct[1] \o <<CSetCbOp(p), VerifyOpX(ct[2], 0, 1)>> : p \in AllProgs }]
 \* the checker's own key carries an alg attribute (HS512); the callback keeps the key and only relabels
 \* config->alg: the pair must pass the same table as setkey (HS256 with an HS512 key is refused)
 RelabelProgs == { <<CbAlg(a)>> : a \in {"HS256", "HS512", "HS384", "none", "RS256"} }
@@ -46,5 +47,5 @@ RelabelProgs == { <<CbAlg(a)>> : a \in {"HS256", "HS512", "HS384", "none", "RS25
 RelabelToks == { Tok(a, <<>>, <<IntM("exp", FutW)>>, Sig("valid", a, KOct2)) : a \in {"HS256", "HS512", "HS384"} }
 RelabelScripts ==
   { <<LoadOp(<<KOct, KOct2>>), CNewOp, CSetKeyOp("none", 1), CSetCbOp(p), VerifyOpX(t, 0, 1)>> : p \in RelabelProgs, t \in RelabelToks }
-MCSpec == ISpecWith(C19Scripts \cup RelabelScripts)
+MCSpec == ISpecP(InFam(C19Fam) \/ script \in RelabelScripts)
 =============================================================================
